@@ -15,6 +15,7 @@ import RpyModel.Drv.C06
 import RpyModel.Drv.C18
 import RpyModel.Drv.C12
 import RpyModel.Drv.C11
+import RpyModel.Drv.C13
 open Lean
 
 def dispatch (R : Type) [Num R] [Inhabited R] [NatCast R] (kind : String) (j : Json) : Except String Json :=
@@ -41,6 +42,9 @@ def dispatch (R : Type) [Num R] [Inhabited R] [NatCast R] (kind : String) (j : J
   | "readout_forward" => Drv.handleReadoutForward R j
   | "one_hot" => Drv.handleOneHot j
   | "map_steps" => Drv.handleMapSteps R j
+  | "matgen_scale" => Drv.handleMatgenScale R j
+  | "matgen_struct" => Drv.handleMatgenStruct j
+  | "matgen_partial" => Drv.handleMatgenPartial j
   | _ => throw s!"unknown kind {kind}"
 
 def handle (line : String) : String :=
